@@ -26,7 +26,10 @@ RULE = ('kernel/exhaustive: every free/blocked layout (blocked = barrier value o
         'one gap), snap on/off, ascending/descending coordinates with steps 1, 0.1, 0.25, 1/3, 0.5, 2, 30 and offsets, points on '
         'cell centres, off-centre, exactly between centres and within half a cell outside the first/last centre, with and without '
         'a res attribute, float64 and int64 rasters; pixel: _get_pixel_id alone on the same coordinate families; '
-        'sequences in one process: a raster without res is routed, then a strided / re-scaled / windowed view of the same DataArray, every call '
+        'appended theme streams: memory layouts of surface/coordinates (F, transposed, strided, reversed, non-writeable), barrier arrays of '
+        'other dtypes, barrier values outside float32 / beyond 2**31 / tiny / huge with free cells one ulp around them in the cell\'s own '
+        'dtype, float32 coordinates, spacing 1e6 / 1e-6 / arc-seconds, all-equal / all-NaN surfaces, repeated / copied / astype / '
+        'interleaved-parameter call sequences with data, coords and attrs snapshots; sequences in one process: a raster without res is routed, then a strided / re-scaled / windowed view of the same DataArray, every call '
         'checked by the oracle on the cells\' own coordinates plus an attrs snapshot of the input before/after; barrier lists of 0-4 values in every order (ascending, descending, shuffled, with duplicates), each value present on the '
         'surface; far-island snapping: 4x4 ... 6x6 rasters whose only crossable cells sit in one corner, the end point in the opposite '
         'corner (kernel-level _find_nearest_pixel and the public API); a sample of detour cases is first run in a child process with a timeout so that a non-terminating search loop is reported as a failing input. A case is non-trivial when it has >= 1 '
@@ -332,6 +335,26 @@ def run_api(case, agg=None):
         cdt = 'int64'
     agg = xr.DataArray(data, dims=[ydim, xdim], coords={ydim: np.array(case['ys'], dtype='float64').astype(cdt),
                                                          xdim: np.array(case['xs'], dtype='float64').astype(cdt)}, attrs=attrs)
+    lay = case.get('layout')
+    if lay and given is None:
+        cy = np.array(case['ys'], dtype='float64').astype(case.get('coord_np_dtype', cdt))
+        cx = np.array(case['xs'], dtype='float64').astype(case.get('coord_np_dtype', cdt))
+        if lay == 'F':
+            data = np.asfortranarray(data)
+        elif lay == 'T':                          # transposed view of a C array
+            data = np.ascontiguousarray(data.T).T
+        elif lay == 'strided':
+            big = np.full((data.shape[0] * 2, data.shape[1] * 3), 7, dtype=data.dtype)
+            big[::2, ::3] = data
+            data = big[::2, ::3]
+        elif lay == 'reversed':
+            data = np.ascontiguousarray(data[::-1, ::-1])[::-1, ::-1]
+            cy = np.ascontiguousarray(cy[::-1])[::-1]
+            cx = np.ascontiguousarray(cx[::-1])[::-1]
+        elif lay == 'readonly':
+            data = data.copy()
+            data.setflags(write=False)
+        agg = xr.DataArray(data, dims=[ydim, xdim], coords={ydim: cy, xdim: cx}, attrs=attrs)
     if given is not None:
         agg = given
     barriers = list(case['barriers'])
@@ -341,6 +364,12 @@ def run_api(case, agg=None):
         barriers = np.array(barriers, dtype='float64')
     elif case.get('barrier_kind') == 'tuple':
         barriers = tuple(barriers)
+    elif str(case.get('barrier_kind', '')).startswith('np:'):
+        barriers = np.array(barriers).astype(case['barrier_kind'][3:])
+    elif case.get('barrier_kind') == 'strided':
+        bb = np.zeros(len(barriers) * 2)
+        bb[::2] = barriers
+        barriers = bb[::2]
     start = _point(case['start'], case.get('point_kind', 'tuple'))
     goal = _point(case['goal'], case.get('point_kind', 'tuple'))
     try:
@@ -1145,6 +1174,10 @@ def derive(agg, how):
         return agg.assign_coords({ydim: agg[ydim] * how[1] + how[2], xdim: agg[xdim] * how[1] - how[2]})
     if how[0] == 'window':
         return agg[how[1]:, how[2]:]
+    if how[0] == 'copy':
+        return agg.copy()
+    if how[0] == 'astype':
+        return agg.astype(how[1])
     return agg
 
 
@@ -1153,6 +1186,7 @@ def run_sequence(case):
     window) is routed in the same process.  -> (list of (sub-case as an ordinary api case, result), attrs before, attrs after)"""
     agg = build_agg(case)
     before = dict(agg.attrs)
+    snap0 = (agg.values.tobytes(), [agg[d].values.tobytes() for d in agg.dims], str(agg.dtype), tuple(agg.dims))
     out = []
     cur = agg
     for step in case['steps']:
@@ -1165,17 +1199,26 @@ def run_sequence(case):
             continue
         s = (min(s[0], len(ys) - 1), min(s[1], len(xs) - 1))
         g = (min(g[0], len(ys) - 1), min(g[1], len(xs) - 1))
-        sub = dict(fn='api', data=[[float(v) for v in row] for row in cur.values.tolist()], barriers=case['barriers'],
-                   conn=case['conn'], snap_start=step.get('snap_start', False), snap_goal=step.get('snap_goal', False),
+        sub = dict(fn='api', data=[[float(v) for v in row] for row in cur.values.tolist()],
+                   barriers=step.get('barriers', case['barriers']),
+                   conn=step.get('conn', case['conn']), snap_start=step.get('snap_start', False), snap_goal=step.get('snap_goal', False),
                    ys=ys, xs=xs, res=None, dims=list(cur.dims), fam='centre',
                    start=[ys[s[0]], xs[s[1]]], goal=[ys[g[0]], xs[g[1]]])      # the cells' OWN coordinates
         out.append((sub, run_api(sub, agg=cur)))
-    return out, before, dict(agg.attrs)
+    snap1 = (agg.values.tobytes(), [agg[d].values.tobytes() for d in agg.dims], str(agg.dtype), tuple(agg.dims))
+    after = dict(agg.attrs)
+    if snap0 != snap1:
+        after['__data_or_coords_changed__'] = True
+    return out, before, after
 
 
 def check_sequence(ctx, case, model_pending=None):
     subs, before, after = run_sequence(case)
     for i, (sub, res) in enumerate(subs):
+        if i > 0 and case['steps'][i].get('same_as_prev') and repr(res) != repr(subs[i - 1][1]):
+            ctx.violation('oracle', 'a_star_search: the same call repeated on the same raster gives a different result',
+                          dict(case, failing_call=i + 1, first=subs[i - 1][1][1], second=res[1]), key=None)
+            return
         if len(sub['ys']) < 2 or len(sub['xs']) < 2:
             continue                            # resolution of a single row/column is undefined without res
         o = oracle_api(sub, res)
@@ -1215,6 +1258,142 @@ def sequence_cases(ctx, n):
         case = gen_sequence(ctx.rng)
         ctx.case(case)
         ctx.count('sequence/%s' % '+'.join(st['derive'][0] for st in case['steps'][1:]))
+        check_sequence(ctx, case, pending)
+    if ctx.model is not None and pending:
+        outs = ctx.model.run([p[0] for p in pending])
+        bad = 0
+        for (line, res, case), mo in zip(pending, outs):
+            if not compare_float(ctx, 'a_star_search (sequence) vs model', res, mo, case):
+                bad += 1
+                if bad > 5:
+                    break
+
+
+EXTREME = [0.1, float(2 ** 24 + 1), float(2 ** 31 + 5), 2.0 ** -60, 2.0 ** 70, -0.3, 1e-9]
+
+
+def theme_cases(ctx, n):
+    """appended stream (round-5 themes): memory layout of the surface and of the coordinate arrays (F order, transposed, strided,
+    reversed views, non-writeable), barrier arrays of other dtypes / strided, barrier values that are not float32 numbers, beyond
+    2**31, tiny or huge, with the free cells one ulp around them IN THE CELL'S OWN DTYPE, float32 coordinates, spacing 1e6 / 1e-6 /
+    arc-seconds, all-equal and all-NaN surfaces"""
+    rng = ctx.rng
+    cases = []
+    layouts_ = ['F', 'T', 'strided', 'reversed', 'readonly']
+    bkinds = ['np:int32', 'np:float32', 'np:uint8', 'np:int16', 'np:int64', 'strided']
+    if ctx.quick():
+        bkinds = rng.sample(bkinds[:5], 2) + ['strided']
+    for i in range(n):
+        fam = i % 5
+        h, w = rng.randint(2, 7), rng.randint(2, 7)
+        lay = [[1.0 if rng.random() < 0.7 else 0.0 for _ in range(w)] for _ in range(h)]
+        if fam == 0:                                             # memory layouts
+            c = gen_api_case(rng, maze(rng, h + 2, w + 2) if i % 2 else lay, unit=(i % 3 == 0),
+                             dtype='float64' if i % 4 else 'int64')
+            c['layout'] = layouts_[(i // 5) % len(layouts_)]
+            c['coord_dtype'] = 'float64'
+        elif fam == 1:                                           # barrier arrays of another dtype (integral, non-negative values)
+            c = gen_api_case(rng, lay, unit=(i % 3 == 0), dtype='float64' if i % 2 else 'int64')
+            c['barriers'] = [b for b in c['barriers'] if not isnan(b) and not math.isinf(b)] or [0.0]
+            c['data'] = [[(0.0 if (isnan(v) or math.isinf(v)) and not lay[y][x] else v) for x, v in enumerate(row)]
+                         for y, row in enumerate(c['data'])]
+            if 0.0 not in c['barriers']:
+                c['barriers'].append(0.0)
+            c['data'] = [[(1.0 if lay[y][x] and (v in c['barriers'] or isnan(v) or math.isinf(v) or v < 0 or v != int(v)) else v)
+                          for x, v in enumerate(row)] for y, row in enumerate(c['data'])]
+            c['barrier_kind'] = bkinds[(i // 5) % len(bkinds)]
+        elif fam == 2:                                           # extreme barrier values and their ulp neighbours
+            dt = ['float64', 'float64', 'float32', 'int64'][(i // 5) % 4]
+            c = gen_api_case(rng, lay, unit=(i % 3 == 0), dtype=dt)
+            if dt == 'int64':
+                vals = [float(2 ** 24 + 1), float(2 ** 31 + 5), float(2 ** 40)]
+                near = lambda v: [v - 1.0, v + 1.0]
+                kind = 'int'
+            elif dt == 'float32':
+                vals = [float(np.float32(v)) for v in EXTREME if v != float(2 ** 31 + 5)]
+                near = lambda v: [float(np.nextafter(np.float32(v), np.float32(np.inf))), float(np.nextafter(np.float32(v), np.float32(-np.inf)))]
+                kind = rng.choice(['list', 'np:float32'])
+            else:
+                vals = list(EXTREME)
+                near = lambda v: [float(np.nextafter(v, np.inf)), float(np.nextafter(v, -np.inf))]
+                kind = rng.choice(['list', 'ndarray', 'tuple'])
+            bs = rng.sample(vals, rng.choice([1, 2, 3]))
+            pool = [x for v in bs for x in near(v)] + [1.0]
+            c['barriers'] = bs
+            c['barrier_kind'] = kind
+            c['data'] = [[(rng.choice(pool) if lay[y][x] else rng.choice(bs)) for x in range(w)] for y in range(h)]
+        elif fam == 3:                                           # coordinates: float32 arrays, huge / tiny / arc-second spacing
+            c = gen_api_case(rng, lay, unit=True, fam='centre')
+            step = rng.choice([1e6, 1e-6, 1.0 / 3600.0, 250.0, 1e3])
+            oy, ox = rng.choice([(0.0, 0.0), (-2e6, 5e5), (45.0, -120.0)])
+            if step < 1e-3 and abs(oy) > 100:
+                oy, ox = 0.0, 0.0
+            sgy, sgx = rng.choice([1, -1]), rng.choice([1, -1])
+            sy_, sx_ = step, step * rng.choice([1.0, 1.0, 2.0])
+            ys = [oy + sgy * k * sy_ for k in range(h)]
+            xs = [ox + sgx * k * sx_ for k in range(w)]
+            if i % 2 and step in (250.0, 1e3, 1e6):
+                c['coord_np_dtype'] = 'float32'
+                c['layout'] = 'C'
+                ys = [float(np.float32(v)) for v in ys]
+                xs = [float(np.float32(v)) for v in xs]
+            # re-express the unit-grid end points (cell indices) on the new axes; off-centre by a quarter cell sometimes
+            si, sj = int(round(abs(c['start'][0] - c['ys'][0]))), int(round(c['start'][1]))
+            gi, gj = int(round(abs(c['goal'][0] - c['ys'][0]))), int(round(c['goal'][1]))
+            q = 0.0 if c.get('coord_np_dtype') else rng.choice([0.0, 0.25, -0.25])
+            c.update(ys=ys, xs=xs, res=None, coord_dtype='float64', point_kind='tuple',
+                     start=[ys[si] + q * sy_, xs[sj] - q * sx_], goal=[ys[gi] - q * sy_, xs[gj] + q * sx_])
+        else:                                                    # degenerate surfaces: all equal, all NaN, all one barrier value
+            c = gen_api_case(rng, lay, unit=(i % 3 == 0))
+            kind = (i // 5) % 3
+            bs = [b for b in c['barriers'] if not isnan(b)] or [0.0]
+            c['barriers'] = bs
+            v = 3.0 if kind == 0 else (float('nan') if kind == 1 else bs[0])
+            c['data'] = [[v] * w for _ in range(h)]
+        c['theme'] = ['layout', 'barrier-dtype', 'extreme-values', 'coords', 'degenerate'][fam]
+        ctx.count('theme/%s/%s' % (c['theme'], (c.get('layout') or c.get('barrier_kind')) if fam < 2 else
+                                   (c.get('coord_np_dtype', 'float64') if fam == 3 else c.get('dtype'))))
+        cases.append(c)
+    api_batch(ctx, cases, 'api-theme')
+
+
+def gen_sequence2(rng):
+    """appended sequence stream: the same call repeated, copies / astype of a processed raster, interleaved parameters"""
+    h, w = rng.randint(3, 8), rng.randint(3, 8)
+    lay = [[1.0 if rng.random() < 0.8 else 0.0 for _ in range(w)] for _ in range(h)]
+    data, barriers = decorate(rng, lay)
+    ys, _ = axis(rng, h)
+    xs, _ = axis(rng, w)
+    s0, g0 = [rng.randrange(h), rng.randrange(w)], [rng.randrange(h), rng.randrange(w)]
+    steps = [dict(derive=('none',), start_cell=s0, goal_cell=g0)]
+    for _ in range(rng.choice([2, 3])):
+        k = rng.choice(['repeat', 'copy', 'astype', 'conn', 'barriers', 'stride'])
+        st = dict(derive=('none',), start_cell=[rng.randrange(h), rng.randrange(w)], goal_cell=[rng.randrange(h), rng.randrange(w)])
+        if k == 'repeat':
+            st = dict(steps[-1], derive=('none',), same_as_prev=True)
+        elif k == 'copy':
+            st['derive'] = ('copy',)
+        elif k == 'astype':
+            st['derive'] = ('astype', 'float32')
+        elif k == 'conn':
+            st['conn'] = rng.choice([4, 8])
+        elif k == 'barriers':
+            st['barriers'] = barrier_list(rng)
+        else:
+            st['derive'] = ('stride', rng.choice([1, 2]), rng.choice([2, 3]))
+        steps.append(st)
+    return dict(fn='sequence', data=data, barriers=barriers, conn=rng.choice([4, 8]), ys=ys, xs=xs,
+                dims=rng.choice([['y', 'x'], ['lat', 'lon']]), attrs=rng.choice([{}, {'crs': 'EPSG:4326'}]), steps=steps)
+
+
+def sequence2_cases(ctx, n):
+    pending = []
+    for i in range(n):
+        case = gen_sequence2(ctx.rng)
+        ctx.case(case)
+        for st in case['steps'][1:]:
+            ctx.count('sequence2/%s' % ('repeat' if st.get('same_as_prev') else ('conn' if 'conn' in st else (
+                'barriers' if 'barriers' in st else st['derive'][0]))))
         check_sequence(ctx, case, pending)
     if ctx.model is not None and pending:
         outs = ctx.model.run([p[0] for p in pending])
@@ -1334,6 +1513,9 @@ def run(ctx):
     sequence_cases(ctx, 200 if quick else 3000)
     pixel_cases(ctx, 300 if quick else 4000)
     exact_cases(ctx, 150 if quick else 2000)
+    # ---- appended streams (after everything else so that earlier rng draws do not shift) -----------------
+    theme_cases(ctx, 250 if quick else 5000)
+    sequence2_cases(ctx, 120 if quick else 2000)
 
 
 def search(ctx):
